@@ -45,6 +45,8 @@ type c14Op struct {
 	item    *openapi3.PathItem
 	op      *openapi3.Operation
 	route   *routers.Route
+	// mediaDiff counts responses whose JSON media type is not the documented one
+	mediaDiff int64
 }
 
 func c14FindOp(s *Svc, m *spec.Method, l *Layout) (*c14Op, string, error) {
@@ -621,7 +623,7 @@ func runC14(s *Svc, m *spec.Method, tier string) *MethodResult {
 	if m.Feat["family"] == "L2-errors" {
 		c14Errors(s, m, o, r)
 	}
-	if n := atomic.SwapInt64(&mediaTypeDiffers, 0); n > 0 {
+	if n := o.mediaDiff; n > 0 {
 		r.note("responses_whose_json_media_type_is_not_the_documented_one_(validated_against_the_status_code's_schema)", n)
 	}
 	if n := atomic.SwapInt64(&formatOutsideTables, 0); n > 0 {
@@ -944,9 +946,6 @@ func textClass14(s string) string {
 	return "overflow-32"
 }
 
-// mediaTypeDiffers counts responses whose JSON media type is not the documented one.
-var mediaTypeDiffers int64
-
 // docVerdictResponse validates the recorded response against the documented response of its
 // status code.
 func docVerdictResponse(o *c14Op, call *Call) (ok bool, reasons []string, detail string, verr error) {
@@ -966,7 +965,7 @@ func docVerdictResponse(o *c14Op, call *Call) (ok bool, reasons []string, detail
 					direct = c.Schema
 				}
 				opts.ExcludeResponseBody = true
-				atomic.AddInt64(&mediaTypeDiffers, 1)
+				o.mediaDiff++
 			}
 		}
 	}
